@@ -126,7 +126,8 @@ fn resolve(r: &mut StdRng, out: &mut Out, ncat: usize, per_name: usize, o: ZoneO
         let s = new_session(r, out, o, true, 0, false, &[1232, 4096, 512]);
         for qn in query_names(&s) {
             for _ in 0..per_name {
-                let ty = *TYPES.choose(r).unwrap();
+                // (the starts of the alias chains: mostly the types whose answers get additional-section processing)
+                let ty = if qn.starts_with("ch") && r.gen_bool(0.6) { *[15u16, 33, 2, 15, 33].choose(r).unwrap() } else { *TYPES.choose(r).unwrap() };
                 let class = if r.gen_bool(0.8) { 1 } else { *s.classes.choose(r).unwrap() };
                 let mut m = base_query(r, &qn, ty, class);
                 if r.gen_bool(0.3) {
@@ -186,7 +187,7 @@ fn size(r: &mut StdRng, out: &mut Out, ncat: usize, per_name: usize) {
 /// one's <h> label. The QNAME's prefix labels are sized so that the <h> label of one pair starts exactly at offset 16384
 /// (and, for the neighbouring sizes, just before / after it): there it must not be a compression target, a 14-bit
 /// pointer reaches 16383 at most. TCP only.
-fn huge_session(r: &mut StdRng, out: &mut Out, around: &[i64]) {
+fn huge_session(r: &mut StdRng, out: &mut Out, around: &[i64], straddle: bool) {
     use quandary::db::catalog::Entry;
     use quandary::db::zone::GluePolicy;
     let apex = "huge.test.";
@@ -198,7 +199,7 @@ fn huge_session(r: &mut StdRng, out: &mut Out, around: &[i64]) {
         Rec { owner: apex.into(), ty: 2, ttl: 60, rdata: w("ns.huge.test.") },
         Rec { owner: "ns.huge.test.".into(), ty: 1, ttl: 60, rdata: vec![192, 0, 2, 1] },
     ];
-    for i in 0..175u32 {
+    for i in 0..(if straddle { 168u32 } else { 175 }) {
         for ab in ["a", "b"] {
             let t = format!("{}.h{:03}{}.huge.test.", ab, i, "x".repeat(56));
             let mut rd = vec![(i >> 8) as u8, (i & 255) as u8];
@@ -206,14 +207,38 @@ fn huge_session(r: &mut StdRng, out: &mut Out, around: &[i64]) {
             recs.push(Rec { owner: "*.huge.test.".into(), ty: 15, ttl: 60, rdata: rd });
         }
     }
+    // ... and two last targets, A = mx.<63 u>.<63 v>.huge.test. and B = <63 p>.<63 q>.mx.a.b.huge.test.: when A's first label
+    // lies just below offset 16384 and its second one above, A straddles the reach of a pointer; B, written next, has the
+    // label "mx" in the column of A's first label and different labels where A's unreachable ones are: it must not be
+    // compressed against A (p.q + pointer to A would be a name of 263 octets)
+    for t in [format!("mx.{}.{}.huge.test.", "u".repeat(63), "v".repeat(63)), format!("{}.{}.mx.a.b.huge.test.", "p".repeat(63), "q".repeat(63))] {
+        if !straddle { break; }
+        let mut rd = vec![1, 0];
+        rd.extend(w(&t));
+        recs.push(Rec { owner: "*.huge.test.".into(), ty: 15, ttl: 60, rdata: rd });
+    }
     let (zone, jrecs, _) = build_zone(apex, 1, &recs, GluePolicy::Narrow);
     let mut cat = Cat::new();
     cat.insert(Entry::Loaded(Arc::new(zone), ()));
     let server = Server::new(Arc::new(cat));
     out.emit(json!({"ev": "Cfg", "catalog": [{"name": w(apex), "class": 1, "state": "loaded", "records": jrecs}], "payload": 1232, "keys": [], "rrl": false, "strict": true}));
+    // the straddling alignment: record A starts after 175 pairs (97 octets each), its RDATA name 14 octets further on;
+    // its first label ("mx", 3 octets) at 16381, 16382 or 16383 puts the second label above 16383
+    if straddle {
+        let start_of_a = |p: i64| 12 + p + 11 + 4 + 168 * 97 + 14;
+        for want in [16382i64, 16381, 16383] {
+            if let Some(p) = (2..=120i64).find(|p| start_of_a(*p) == want) {
+                let qn = if p <= 64 { format!("{}.huge.test.", "s".repeat(p as usize - 1)) } else { format!("{}.{}.huge.test.", "s".repeat(62), "t".repeat(p as usize - 64)) };
+                let m = base_query(r, &qn, 15, 1);
+                emit_on(&server, out, &m, Transport::Tcp, false);
+            }
+            if around.len() <= 1 { break; }
+        }
+    }
     // a pair = (2 + 10 + 2 + "a" 2 + <h> 61 + pointer 2) + (2 + 10 + 2 + "b" 2 + pointer 2) = 79 + 18 = 97 octets; the first
     // record starts right after the question (12 + prefix + 11 + 4), its <h> label 16 octets further on
     let base = |p: i64| 12 + p + 11 + 4 + 16;
+    if straddle { return; }
     let p0 = (2..=120i64).find(|p| (16384 - base(*p)) % 97 == 0).unwrap();
     for d in around {
         let p = p0 + d;
@@ -239,14 +264,25 @@ fn many_targets_session(r: &mut StdRng, out: &mut Out) {
     for v in [1u32, 2, 3, 4, 60] { soa.extend_from_slice(&v.to_be_bytes()); }
     let mut recs = vec![Rec { owner: apex.into(), ty: 6, ttl: 60, rdata: soa }];
     let mut targets: Vec<String> = (1..=16).map(|i| format!("t{:02}.mt.test.", i)).collect();
-    targets.extend(["ns.mt.test.".to_string(), "a.ns.mt.test.".to_string(), "z.mt.test.".to_string()]);
+    // (b.ns after a.ns: one more owner written without a hint right after the name that was written next to the roll-back)
+    targets.extend(["ns.mt.test.".to_string(), "a.ns.mt.test.".to_string(), "b.ns.mt.test.".to_string(), "z.mt.test.".to_string()]);
+    // the MX RRset has the other shape: after the sixteen, three siblings below a name that is not itself a target
+    // (a.x with forty addresses, b.x, c.x): the name written next to the roll-back is a sibling, not a child
+    let mut mx_targets: Vec<String> = targets[..16].to_vec();
+    mx_targets.extend(["a.x.mt.test.".to_string(), "b.x.mt.test.".to_string(), "c.x.mt.test.".to_string(), "y.mt.test.".to_string()]);
     for (i, t) in targets.iter().enumerate() {
         recs.push(Rec { owner: apex.into(), ty: 2, ttl: 60, rdata: w(t) });
+        let naddr = if t == "ns.mt.test." { 40 } else { 1 };
+        for k in 0..naddr { recs.push(Rec { owner: t.clone(), ty: 1, ttl: 60, rdata: vec![10, 1, i as u8, k as u8] }); }
+    }
+    for (i, t) in mx_targets.iter().enumerate() {
         let mut rd = vec![0, i as u8];
         rd.extend(w(t));
         recs.push(Rec { owner: "mx.mt.test.".into(), ty: 15, ttl: 60, rdata: rd });
-        let naddr = if t == "ns.mt.test." { 40 } else { 1 };
-        for k in 0..naddr { recs.push(Rec { owner: t.clone(), ty: 1, ttl: 60, rdata: vec![10, 1, i as u8, k as u8] }); }
+        if i >= 16 {
+            let naddr = if t == "a.x.mt.test." { 40 } else { 1 };
+            for k in 0..naddr { recs.push(Rec { owner: t.clone(), ty: 1, ttl: 60, rdata: vec![10, 2, i as u8, k as u8] }); }
+        }
     }
     let (zone, jrecs, _) = build_zone(apex, 1, &recs, GluePolicy::Narrow);
     let mut cat = Cat::new();
@@ -258,8 +294,8 @@ fn many_targets_session(r: &mut StdRng, out: &mut Out) {
         let base = base_query(r, qn, ty, 1);
         let full = handle(&server, &{ let mut t = base.clone(); push_additional(&mut t, &opt_rr(4096, 0, &[0], &[])); t }, Transport::Tcp, SRC);
         let l0 = full["resp"].as_array().map(|a| a.len()).unwrap_or(0) as i64;
-        // prefix before the seventeenth target's addresses = complete length - 40 x 16 - 2 x 16 - OPT
-        let p = l0 - 640 - 32 - 11;
+        // prefix before the seventeenth target's addresses = complete length - 40 x 16 - 3 x 16 - OPT
+        let p = l0 - 640 - 48 - 11;
         for x in [p + 27, p + 60, p + 300, p + 640, p + 650, p + 651, l0] {
             if x < 512 || x > 4096 { continue; }
             let mut m = base.clone();
@@ -289,6 +325,13 @@ fn dispatch(r: &mut StdRng, out: &mut Out, ncat: usize, n: usize) {
                 0 => { m[5] = 0; m.truncate(12); }
                 1 => { m[5] = 2; let q2 = m[12..].to_vec(); m.extend_from_slice(&q2); }
                 _ => {}
+            }
+            // requests that carry records of their own (NOTIFY with the new SOA, IXFR with the client's SOA, an UPDATE):
+            // one or two plain records in the answer or authority section
+            if r.gen_bool(0.15) && m[5] == 1 {
+                let (a, n) = *[(1u8, 0u8), (0, 1), (2, 0), (1, 1), (0, 2)].choose(r).unwrap();
+                m[7] = a; m[9] = n;
+                for _ in 0..(a + n) { m.extend(rr(&[0xc0, 0x0c], 6, 1, 60, &{ let mut v = w("ns.example.test."); v.extend(w("a.example.test.")); v.extend_from_slice(&[0; 20]); v })); }
             }
             if r.gen_bool(0.2) { push_additional(&mut m, &opt_rr(1232, 0, &[0], &[])); }
             emit_req(&s, out, &m, pick_transport(r), false);
@@ -786,7 +829,8 @@ pub fn main(args: &[String]) {
         "resolve" => resolve(&mut r, &mut out, scale, 2, ZoneOpts { big: false, weird: false, chains: true }),
         "size" => size(&mut r, &mut out, scale, 2),
         // responses beyond 16 KiB: the alignment that puts a name at offset 16384 and its neighbours (all 21 alignments from scale 4 on)
-        "huge" => { let all: Vec<i64> = (-10..=10).collect(); huge_session(&mut r, &mut out, if scale >= 4 { &all } else if scale >= 1 { &[0, 1, -1] } else { &[0] }) }
+        "huge" => { let all: Vec<i64> = (-10..=10).collect(); let ar: &[i64] = if scale >= 4 { &all } else if scale >= 1 { &[0, 1, -1] } else { &[0] };
+                    huge_session(&mut r, &mut out, ar, false); huge_session(&mut r, &mut out, ar, true); }
         "dispatch" => { dispatch(&mut r, &mut out, scale, 150); for _ in 0..(scale / 4).max(2) { dispatch_single(&mut r, &mut out, 80); } }
         "header" => header(&mut r, &mut out, scale),
         "mutate" => mutate(&mut r, &mut out, scale, 60),
